@@ -60,6 +60,10 @@ def seeded():
         sid = os.path.basename(os.path.dirname(d))
         prop = m.get('property') or m.get('breaks_property')
         hist = res.get((sid, prop), [])
+        others = {}
+        for (i2, p2), h2 in res.items():
+            if i2 == sid and p2 != prop and h2:
+                others[p2] = h2[-1]
         if not hist:
             verdict = 'not run yet'
         else:
@@ -71,8 +75,14 @@ def seeded():
                 if first_missed:
                     verdict += ' — missed by the first version of the check, caught after strengthening'
             else:
-                missed += 1
-                verdict = 'MISSED'
+                by = [p2 for p2, h2 in others.items() if h2['verdict'] == 'CAUGHT']
+                if by:
+                    caught += 1
+                    verdict = 'not visible to %s\'s own monitor; CAUGHT by %s (%s) — the change manifests in that property\'s domain' % (
+                        prop, ', '.join('`./check %s`' % b for b in sorted(by)), '; '.join(others[b].get('classes', '').strip(',') for b in sorted(by)))
+                else:
+                    missed += 1
+                    verdict = 'MISSED'
         rows.append('| %s | %s | %s | %s | %s |' % (sid, prop, ', '.join('`%s`' % f for f in m.get('files', [])),
                                                    str(m.get('needs', '')).replace('|', '\\|').replace('\n', ' ')[:260], verdict))
     return '%d seeded changes kept (each confirmed by the coordinator: demonstration passes on clean HEAD, fails with the patch; tree builds; no baseline-stable test of the touched packages fails). Caught: %d, missed: %d.\n\n' % (caught + missed + sum(1 for r in rows if 'not run yet' in r), caught, missed) + '\n'.join(rows)
